@@ -46,6 +46,9 @@ TFY_LEAVES = [
     {"k": "tfy", "res": {"k": "dep", "name": "te", "version": "1", "head": "<meta name='e'>"}},
     {"k": "tfy", "res": {"k": "list", "t": "taglist", "kids": [{"k": "meta"}, {"k": "html", "s": "<i>g2</i>"}, {"k": "headc", "kids": [{"k": "text", "s": "hc2"}]}]}},
     {"k": "tfy", "res": {"k": "tag", "name": "p", "ws": True, "attrs": [], "kids": [{"k": "text", "s": "g3"}, {"k": "dep", "name": "tf", "version": "1"}]}},
+    # components that are tagifiable *and* self-rendering (their _repr_html_ differs from their expansion)
+    {"k": "tfy", "repr": True, "res": {"k": "tag", "name": "ul", "ws": True, "attrs": [], "kids": [{"k": "tag", "name": "li", "ws": True, "attrs": [], "kids": [{"k": "text", "s": "w1"}]}, {"k": "text", "s": "w2"}]}},
+    {"k": "tfy", "repr": True, "res": {"k": "list", "t": "taglist", "kids": [{"k": "text", "s": "v1"}, {"k": "tag", "name": "div", "ws": True, "attrs": [], "kids": [{"k": "text", "s": "v2"}]}]}},
 ]
 
 
@@ -74,6 +77,8 @@ def case_strategy():
             "indent": st.integers(0, 4),
             "eol": st.sampled_from(EOLS),
             "pick": st.integers(0, 10**6),
+            # the global that decides how str() shows dependencies (str() itself is then exempt: it shows them by design)
+            "mode": st.sampled_from(["invisible", "invisible", "invisible", "json"]),
         }
     )
 
@@ -125,6 +130,19 @@ def collect_deps(objs):
 def body(case, note):
     import htmltools as h
 
+    saved = h.html_dependency_render_mode
+    h.html_dependency_render_mode = case.get("mode", "invisible")
+    try:
+        _body(case, note)
+    finally:
+        h.html_dependency_render_mode = saved
+
+
+def _body(case, note):
+    import htmltools as h
+
+    json_mode = h.html_dependency_render_mode == "json"
+    _str = (lambda x: x.get_html_string()) if json_mode else str  # str() shows dependencies in json mode, by design
     roots, indent, eol = case["roots"], case["indent"], case["eol"]
     has_tfy = bool(case.get("tfy"))
     if has_tfy:
@@ -142,20 +160,20 @@ def body(case, note):
         a, b = tlw.tagify().get_html_string(indent, eol), tlo.tagify().get_html_string(indent, eol)
         check(a == b, "tagify().get_html_string changes when metadata nodes are present (tree with tagifiable objects)", b, a)
         check(tlw.render()["html"] == tlo.render()["html"], "TagList.render()['html'] changes with metadata (tree with tagifiable objects)", tlo.render()["html"], tlw.render()["html"])
-        check(str(tlw) == str(tlo), "str(TagList) changes with metadata (tree with tagifiable objects)")
+        check(json_mode or str(tlw) == str(tlo), "str(TagList) changes with metadata (tree with tagifiable objects)")
         for r, ow in zip(roots, w):
             if r["k"] == "tag":
                 oo = build(strip([r])[0], {})
                 check(ow.render()["html"] == oo.render()["html"], "Tag.render()['html'] changes with metadata (tree with tagifiable objects)", oo.render()["html"], ow.render()["html"])
         acc: set = set()
         _positions(roots, acc)
-        note(bool(acc & {"first", "only-children", "between-inline-and-block"}), "with-tagifiable", *sorted(acc))
+        note(bool(acc & {"first", "only-children", "between-inline-and-block"}), "with-tagifiable", "json-mode" if json_mode else "", *sorted(acc))
         return
     a, b = tlw.get_html_string(indent, eol), tlo.get_html_string(indent, eol)
     check(a == b, "TagList.get_html_string changes when metadata nodes are present", b, a)
     check(tlw.get_html_string(indent, eol, add_ws=False) == tlo.get_html_string(indent, eol, add_ws=False), "TagList(add_ws=False) changes with metadata")
     check(tlw.render()["html"] == tlo.render()["html"], "TagList.render()['html'] changes with metadata", tlo.render()["html"], tlw.render()["html"])
-    check(str(tlw) == str(tlo), "str(TagList) changes with metadata")
+    check(_str(tlw) == _str(tlo), "str(TagList) changes with metadata")
     vis_roots = [r for r in roots if not L.is_meta(r)]
     wv = [o for r, o in zip(roots, w) if not L.is_meta(r)]
     for r, ow, oo in zip(vis_roots, wv, wo):
@@ -163,7 +181,7 @@ def body(case, note):
             continue
         a, b = ow.get_html_string(indent, eol), oo.get_html_string(indent, eol)
         check(a == b, "Tag.get_html_string changes when metadata nodes are present", b, a)
-        check(str(ow) == str(oo), "str(tag) changes with metadata")
+        check(_str(ow) == _str(oo), "str(tag) changes with metadata")
         check(ow.render()["html"] == oo.render()["html"], "Tag.render()['html'] changes with metadata")
     # dependencies: exactly the inserted objects, in document order; resolved by D
     exp = collect_deps(w)
@@ -227,7 +245,7 @@ def body(case, note):
         check(len(tw.get_dependencies(dedup=False)) >= n_meta and len(exp_w) == n_meta, "dependencies displayed inside a with-block are not all kept as metadata children", n_meta, len(exp_w))
     acc: set = set()
     _positions(roots, acc)
-    note(bool(acc & {"first", "only-children", "between-inline-and-block"}), "same-object-repeated" if memo_w else "", *sorted(acc))
+    note(bool(acc & {"first", "only-children", "between-inline-and-block"}), "same-object-repeated" if memo_w else "", "json-mode" if json_mode else "", *sorted(acc))
 
 
 RULE = (
@@ -244,7 +262,7 @@ CLAUSES = [
         quick=700,
         thorough=12000,
         shards_quick=4,
-        required=("first", "last", "only-children", "between-inline-and-block", "several-in-a-row", "inside-void", "beside-single-text", "with-tagifiable", "same-object-repeated"),
+        required=("first", "last", "only-children", "between-inline-and-block", "several-in-a-row", "inside-void", "beside-single-text", "with-tagifiable", "same-object-repeated", "json-mode"),
         rule="see RULE",
     ),
 ]
